@@ -8,6 +8,12 @@ on model-printed (and on noisy) text; solver-output formatting/parsing and the
 update (blocking clause) step are compared on synthetic solver outputs.  The
 third-party solver modules are replaced in-process by recording fakes where the
 parser is not callable on its own (nothing in /repo is edited).
+Layer `chars` (Text/Chars.v, Text/TextChars.v): the model's TEXT is compared
+BYTE FOR BYTE with what the real writers put into the file / return, the
+model's character-level readers run on the real file bytes and on noisy text
+and are compared with the real parsers, and the string primitives (str(int),
+int(str), split, strip, split('\\n')) are compared with CPython on random ASCII
+strings; texts travel hex-encoded.
 Search: the property itself on the real code: an independent stream DIMACS
 reader re-reads the real text (clauses as a multiset vs. the CNF object, header
 counts, sampling set = 1..support), the library's own parsers must recover the
@@ -433,6 +439,246 @@ def prop_sampler(m, cls, nvars, support, use_cmsgen):
     return None
 
 
+
+# --------------------------------------------------------------------------- character level
+
+def hx(text):
+    """text -> wire atom (hex of the bytes; the texts are ASCII)."""
+    return Atom("x" + text.encode("latin-1").hex())
+
+
+def unhx(out):
+    """model output -> text, None for `none`, ('model-error', ..) otherwise."""
+    if out == "none":
+        return None
+    if not out.startswith("x"):
+        return ("model-error", out)
+    return bytes.fromhex(out[1:]).decode("latin-1")
+
+
+WS = " \t\n\x0b\x0c\r\x1c\x1d\x1e\x1f"
+ALPHA = "0123456789" * 3 + "+-_" * 2 + WS + "avx:;=p."
+
+
+def rand_ascii(rng, maxlen=9):
+    r = rng.random()
+    if r < 0.35:       # integer-like
+        s = rng.choice(["", "", "-", "+", "+-", " "]) + "".join(rng.choice("0123456789_" if rng.random() < 0.3 else "0123456789")
+                                                                 for _ in range(rng.randint(0, 6)))
+        return s + rng.choice(["", "", "", " ", "\n", "_", "x"])
+    if r < 0.7:        # words and blanks
+        return "".join(rng.choice([rng.choice(WS), rng.choice(WS) * 2, "ab", "c", "-12", "0", "v3", "p"]) for _ in range(rng.randint(0, 7)))
+    return "".join(rng.choice(ALPHA) for _ in range(rng.randint(0, maxlen)))
+
+
+def py_int(t):
+    try:
+        return str(int(t))
+    except ValueError:
+        return "none"
+
+
+# texts on which the lexer-composed readers are DOCUMENTED to differ from the real parsers
+# (Text/TextChars.v header): non-canonical decimals and 'c ind' written with another blank
+RESTRICTED = [
+    "p cnf 7 1\n007 0\n", "p cnf 2 1\n1 -0\n", "p cnf 2 1\n+01 2 0\n", "p cnf 1_0 1\n1 0\n",
+    "p cnf 3 1\nc  ind 1 2 0\n1 0\n", "p cnf 3 1\nc\tind 1 2 0\n1 0\n", "p cnf 3 1\n1 00\n",
+]
+
+
+def chars_layer(ctx, res, m, rng, note, oc):
+    """Byte-for-byte comparison of the character-level model with the real text I/O."""
+    q = ctx.quick
+    CNF, Var = m["cnf"].CNF, m["cnf"].Var
+    stats = Counter()
+    # ---- C0 primitives -----------------------------------------------------------------------
+    zs = [0, 1, -1, 9, 10, -10, 99, 100, 10 ** 25, -10 ** 25] + \
+         [rng.choice([-1, 1]) * rng.randint(0, 10 ** rng.randint(1, 30)) for _ in range(300 if q else 1500)]
+    outs = ctx.model([sexp([Atom("c_str_z"), z]) for z in zs])
+    for z, o in zip(zs, outs):
+        note("chars-str(int)", unhx(o) == str(z), ("c_str_z", z))
+        stats["str(int)"] += 1
+    strs = ["", " ", "0", "-0", "+0", "007", "1_0", "1__0", "_1", "1_", "+", "-", " 12\n", "\x1f5\x1c", "1 2", "--1", "+-1"] + \
+           [rand_ascii(rng) for _ in range(1500 if q else 8000)]
+    lines = []
+    for t in strs:
+        lines += [sexp([Atom("c_int"), hx(t)]), sexp([Atom("c_split"), hx(t)]), sexp([Atom("c_strip"), hx(t)]),
+                  sexp([Atom("c_lines"), hx(t)])]
+    outs = ctx.model(lines)
+    for i, t in enumerate(strs):
+        o = outs[4 * i:4 * i + 4]
+        note("chars-int(str)", o[0] == py_int(t), ("c_int", t))
+        oc["int(str):" + ("error" if o[0] == "none" else "ok")] += 1
+        note("chars-split", [unhx(x) for x in parse_sexp(o[1])[0]] == t.split(), ("c_split", t))
+        note("chars-strip", unhx(o[2]) == t.strip(), ("c_strip", t))
+        note("chars-lines", [unhx(x) for x in parse_sexp(o[3])[0]] == t.split("\n"), ("c_lines", t))
+        stats["primitive-strings"] += 1
+        res.count(("chars-prim", t), nontrivial=len(t) > 0)
+    # ---- C1 writers, byte for byte -------------------------------------------------------------
+    cases, lines = [], []
+    for _ in range(500 if q else 2500):
+        cls = rand_cnf(rng)
+        fvc = rng.choice([None, None, rng.randint(0, 40)])
+        sup = rng.choice([None, 0, 1, 9, 10, 11, 20, 21, rng.randint(0, 25)])
+        sv = sorted(rng.sample(range(1, 40), rng.randint(0, 23)))
+        cases.append((cls, fvc, sup, sv))
+        lines += [sexp([Atom("c_str"), cls]), sexp([Atom("c_dimacs"), cls, fvc]),
+                  sexp([Atom("c_unigen"), cls, fvc, [Atom("len"), sup] if sup is not None else Atom("none")]),
+                  sexp([Atom("c_unigen"), cls, fvc, [Atom("vars"), sv]]),
+                  sexp([Atom("c_save_cnf"), cls, sup])]
+    outs = ctx.model(lines)
+    real_texts = []
+    with scratch() as d:
+        for i, (cls, fvc, sup, sv) in enumerate(cases):
+            o = [unhx(x) for x in outs[5 * i:5 * i + 5]]
+            c = CNF(cls)
+            note("chars-write-str", str(c) == o[0], ("c_str", cls))
+            note("chars-write-dimacs", c.as_dimacs_string(fvc) == o[1], ("c_dimacs", cls, fvc))
+            note("chars-write-unigen", c.as_unigen_string(fvc, support_set_length=sup) == o[2], ("c_unigen", cls, fvc, sup))
+            note("chars-write-unigen", c.as_unigen_string(fvc, sampled_variables=[Var(v) for v in sv]) == o[3],
+                 ("c_unigen-vars", cls, fvc, sv))
+            p = d / ("s%d.cnf" % i)
+            m["util"].save_cnf(p, c, fvc, sup)
+            raw = p.read_bytes()
+            note("chars-write-save_cnf", raw == (o[4] or "").encode("latin-1"), ("c_save_cnf", cls, sup))
+            stats["writer-files"] += 1
+            stats["writer-bytes"] += len(raw)
+            if any(len(cl) == 0 for cl in cls):
+                stats["writer-files-with-empty-clause"] += 1
+            p.unlink()
+            if all(abs(l) < 10 ** 6 for cl in cls for l in cl):
+                real_texts.append(raw.decode("latin-1"))
+            res.count(("chars-print", repr(cls), fvc, sup), nontrivial=len(cls) > 0)
+    cases, lines = [], []
+    for _ in range(160 if q else 800):
+        cls = rand_cnf(rng, rng.choice(["contig", "gaps"]), maxcl=5)
+        fresh = max([abs(l) for c in cls for l in c] + [rng.randint(1, 6)]) if rng.random() < 0.7 else rng.randint(1, 8)
+        reqs = rand_reqs(rng, fresh)
+        sup = rng.randint(0, 14)
+        cases.append((cls, fresh, sup, reqs))
+        lines.append(sexp([Atom("c_combine_save"), cls, fresh, sup, wire_reqs(reqs)]))
+    outs = ctx.model(lines)
+    with scratch() as d, quiet():
+        for i, (cls, fresh, sup, reqs) in enumerate(cases):
+            p = d / ("c%d.cnf" % i)
+            r = guard(lambda: m["util"].combine_and_save_cnf(p, CNF(cls), fresh, sup, real_reqs(m, reqs)))
+            mo = unhx(outs[i])
+            if isinstance(r, tuple):
+                ok = mo is None
+            else:
+                raw = p.read_bytes()
+                ok = isinstance(mo, str) and raw == mo.encode("latin-1")
+                real_texts.append(raw.decode("latin-1"))
+                stats["writer-files"] += 1
+                stats["writer-bytes"] += len(raw)
+            note("chars-write-combine_and_save_cnf", ok, ("c_combine_save", cls, fresh, sup, reqs))
+            res.count(("chars-combine", repr(cls), fresh, sup, repr(reqs)), nontrivial=len(reqs) > 0)
+            if p.exists():
+                p.unlink()
+    # ---- C2 readers on the REAL file bytes and on noisy text -----------------------------------
+    texts = real_texts[: (400 if q else 1500)]
+    base_files = [tokenise(t) for t in texts[:200]]
+    texts += [render(noisy_file(rng, rng.choice(base_files)), rng) for _ in range(600 if q else 3000)]
+    lines = []
+    for t in texts:
+        lines += [sexp([Atom("c_parse_cms"), hx(t)]), sexp([Atom("c_parse_unigen"), hx(t)])]
+    outs12 = ctx.model(lines)
+    lines = []
+    for i, t in enumerate(texts):
+        mo = outs12[2 * i + 1]
+        lines.append(sexp([Atom("c_sampler_input"), solver_says_sat(parse_sexp(mo)[0]) if mo != "none" else True, hx(t)]))
+    outs3 = ctx.model(lines)
+    rec = Rec()
+    with scratch() as d, quiet(), patched(m["cm"], "pycryptosat", fake_pycryptosat(rec)), \
+            patched(m["ug"], "pyunigen", fake_pyunigen(rec)):
+        p = d / "in.cnf"
+        for i, t in enumerate(texts):
+            p.write_bytes(t.encode("latin-1"))
+            rec.solutions = [(False, None)]
+            rec.clauses = None
+            r = guard(lambda: m["cm"]._use_pycryptosat_library(p))
+            mo = outs12[2 * i]
+            ok = (mo == "none") if isinstance(r, tuple) else (mo != "none" and parse_sexp(mo)[1] == rec.clauses)
+            note("chars-read-pycryptosat", ok, ("c_parse_cms", t))
+            r = guard(lambda: m["ug"].parse_cnf_file(p))
+            mo = outs12[2 * i + 1]
+            if r[0] == "error":
+                ok = mo == "none"
+            else:
+                pr = parse_sexp(mo)
+                ok = mo != "none" and [pr[0], pr[1], pr[2]] == [r[0], r[1], r[2]]
+            note("chars-read-parse_cnf_file", ok, ("c_parse_unigen", t))
+            rec.clauses, rec.sampling, rec.samples = None, None, [[1]]
+            r = guard(lambda: m["ug"].call_unigen_python(p, 1))
+            mo = outs3[i]
+            if isinstance(r, tuple):
+                ok = mo == "none"
+            elif rec.sampling is None:
+                ok = mo == "empty" and r == ""
+            else:
+                pr = parse_sexp(mo)
+                ok = mo not in ("none", "empty") and pr[0] == rec.clauses and pr[1] == rec.sampling
+            note("chars-read-sampler-input", ok, ("c_sampler_input", t))
+            stats["reader-texts"] += 1
+            res.count(("chars-parse", t), nontrivial=len(t) > 12)
+        # the documented restrictions: the real parser accepts, the lexer-composed reader does not agree
+        outs = ctx.model([sexp([Atom("c_parse_unigen"), hx(t)]) for t in RESTRICTED])
+        div = 0
+        for t, mo in zip(RESTRICTED, outs):
+            p.write_bytes(t.encode("latin-1"))
+            r = guard(lambda: m["ug"].parse_cnf_file(p))
+            same = r[0] != "error" and mo != "none" and [parse_sexp(mo)[0], parse_sexp(mo)[1], parse_sexp(mo)[2]] == [r[0], r[1], r[2]]
+            div += 0 if same else 1
+            note("chars-documented-restriction-differs", not same, ("restricted", t))
+        stats["documented-reader-restrictions-confirmed"] = div
+        stats["documented-reader-restrictions-listed"] = len(RESTRICTED)
+    # ---- C3 solver output and the update step, byte for byte ---------------------------------------
+    cases, lines = [], []
+    for _ in range(300 if q else 1500):
+        n = rng.randint(0, 14)
+        bools = [rng.random() < 0.5 for _ in range(n)]
+        sup = rng.randint(0, n + 2)
+        base = rng.choice(real_texts)
+        sol = [(i + 1) * rng.choice([-1, 1]) for i in range(rng.randint(0, 8))]
+        pad = rng.choice(["", "", "\n", " \n\n", "\n  "]), rng.choice(["", "", "\n", "\n \n"])
+        samples = [[(i + 1) * rng.choice([-1, 1]) for i in range(rng.randint(0, 5))] for _ in range(rng.randint(0, 3))]
+        cases.append((bools, sup, base, sol, pad, samples))
+        lines += [sexp([Atom("c_cms_output"), [1 if b else 0 for b in bools]]),
+                  sexp([Atom("c_update_file"), hx(pad[0] + base + pad[1]), sol]),
+                  sexp([Atom("c_unigen_format"), samples])]
+    outs = ctx.model(lines)
+    lines2 = []
+    for i, (bools, sup, base, sol, pad, samples) in enumerate(cases):
+        lines2 += [sexp([Atom("c_parse_v"), Atom(outs[3 * i])]), sexp([Atom("c_solve_result"), Atom(outs[3 * i]), sup]),
+                   sexp([Atom("c_parse_sampler"), Atom(outs[3 * i + 2])])]
+    outs2 = ctx.model(lines2)
+    rec = Rec()
+    with scratch() as d, quiet(), patched(m["cm"], "pycryptosat", fake_pycryptosat(rec)), \
+            patched(m["cm"], "ensure_executable_available", no_binary), patched(m["ug"], "pyunigen", fake_pyunigen(rec)):
+        p = d / "in.cnf"
+        for i, (bools, sup, base, sol, pad, samples) in enumerate(cases):
+            p.write_bytes(base.encode("latin-1"))
+            rec.solutions = [(True, tuple([None] + bools))]
+            cp = m["cm"]._use_pycryptosat_library(p)
+            note("chars-write-pycryptosat-output", cp.stdout == (unhx(outs[3 * i]) or "").encode("latin-1"), ("c_cms_output", bools))
+            rec.solutions = [(True, tuple([None] + bools))]
+            r = guard(lambda: m["cm"].cryptominisat_solve(p, False))
+            note("chars-read-v-lines", r == parse_sexp(outs2[3 * i])[0], ("c_parse_v", bools))
+            note("chars-read-v-lines", (r[:sup] if isinstance(r, list) else r) == parse_sexp(outs2[3 * i + 1])[0], ("c_solve_result", bools, sup))
+            rec.samples = samples
+            t1 = m["ug"].call_unigen_python(p, len(samples)) if any(ln and ln[0] not in "cp" for ln in base.split("\n")) else None
+            if t1 is not None and rec.sampling is not None:
+                note("chars-write-unigen-output", t1 == unhx(outs[3 * i + 2]), ("c_unigen_format", samples))
+            rec.sampling = None
+            p.write_bytes((pad[0] + base + pad[1]).encode("latin-1"))
+            r = guard(lambda: m["snu"].update_file(p, list(sol)))
+            mo = unhx(outs[3 * i + 1])
+            ok = (mo is None) if isinstance(r, tuple) else (isinstance(mo, str) and p.read_bytes() == mo.encode("latin-1"))
+            note("chars-write-update_file", ok, ("c_update_file", pad[0] + base + pad[1], sol))
+            stats["update-files"] += 1
+            res.count(("chars-update", base, tuple(sol), tuple(bools)), nontrivial=len(sol) > 0)
+    res.extra["chars_statistics"] = dict(sorted(stats.items()))
+
 # --------------------------------------------------------------------------- run
 
 def run(ctx, res):
@@ -722,6 +968,9 @@ def run(ctx, res):
             res.count(("update", repr(f), tuple(sol)), nontrivial=len(sol) > 0)
     res.sample({"update_file_input": cases[0][0][:4], "solution": cases[0][1], "model_out": outs[0][:160]})
 
+    # ---- chars: the character level, byte for byte ------------------------------------------------
+    chars_layer(ctx, res, m, rng, note, oc)
+
     # ---- search: the property itself on the real code ------------------------------------------
     found = {}
 
@@ -801,7 +1050,9 @@ def run(ctx, res):
             "corr:" + k, "model Text/* and the real text I/O disagree on layer(s) %s, e.g. %r" % (
                 ", ".join("%s (%d)" % (a, len(b)) for a, b in sorted(broken.items())), broken[k][0]),
             {"layers": sorted(broken), "theorems": ["C27_parse_print", "C27_header_vars", "C27_solver_output_roundtrip",
-                                                    "C27_update_file_blocks"], "first_mismatch": repr(broken[k][0])},
+                                                    "C27_update_file_blocks", "C27_chars_layer", "C27_text_lexes_to_tokens",
+                                                    "C27_parse_print_chars", "C27_header_vars_chars",
+                                                    "C27_solver_output_roundtrip_chars"], "first_mismatch": repr(broken[k][0])},
             failing_input=False))
 
 
